@@ -114,6 +114,30 @@ func (r *Run) Seen(key string) {
 	r.e.Stats.States++
 }
 
+// SeenRank is Seen for depth-bounded searches: the state key was reached with
+// stepsLeft steps remaining. The execution is abandoned if the same key was
+// reached earlier with at least as many steps left and at least the same
+// remaining deviation budget (its futures are a superset).
+func (r *Run) SeenRank(key string, stepsLeft int) {
+	if r.e == nil || r.e.ranked == nil || r.noPrune {
+		return
+	}
+	if len(r.Choices) < len(r.prefix) {
+		return
+	}
+	rem := r.Remaining()
+	for _, p := range r.e.ranked[key] {
+		if p[0] >= stepsLeft && p[1] >= rem {
+			r.pruned = true
+			panic(pruneSignal{})
+		}
+	}
+	if _, ok := r.e.ranked[key]; !ok {
+		r.e.Stats.States++
+	}
+	r.e.ranked[key] = append(r.e.ranked[key], [2]int{stepsLeft, rem})
+}
+
 // Violation describes a property violation found in one execution.
 type Violation struct {
 	Signature string   `json:"signature"` // stable identity: invariant id + failing site/input shape
@@ -169,6 +193,7 @@ type Explorer struct {
 	Wrap func(fn func())
 
 	visited map[string]int
+	ranked  map[string][][2]int
 	Stats   Stats
 	seenSig map[string]bool
 }
@@ -233,6 +258,7 @@ func (e *Explorer) stop() bool {
 func (e *Explorer) Explore() {
 	if e.Prune {
 		e.visited = map[string]int{}
+		e.ranked = map[string][][2]int{}
 	}
 	e.seenSig = map[string]bool{}
 	e.Stats.Bound = e.Bound
